@@ -97,8 +97,46 @@ let blooms_of_section (size : int) (s : int) : n list =
     if i < Array.length c then l := c.(i).b_bloom :: !l
   done; !l
 
+(* ---- the ChainIndexer state machine (IndexerModel): one world, driven op by op ---- *)
+let ix_world : world ref = ref { w_chain = []; w_queue = []; w_ix = ix_init }
+let ix_size = ref N0 and ix_confirms = ref N0
+let ix_commit : (n -> n list -> n list gres) ref = ref process_section
+(* block := hash:parent:bloomhex (hash/parent hex numbers) *)
+let parse_hblock (t : string) : hblock =
+  match String.split_on_char ':' t with
+  | [h; p; b] -> { hb_hash = n_of_string h; hb_parent = n_of_string p; hb_block = { b_bloom = bloom_of_hex b; b_receipts = [] } }
+  | _ -> failwith "parse_hblock"
+let rec take k l = if k <= 0 then [] else (match l with [] -> [] | x :: t -> x :: take (k - 1) t)
+let ix_render () : string =
+  let w = !ix_world in
+  let st = w.w_ix in
+  let heads = String.concat "," (List.init (int_of_n st.ix_stored + 2) (fun s -> hex_of_n (shead st (n_of_int s)))) in
+  let q = String.concat "," (List.map (function NReorg a -> "R" ^ string_of_int (int_of_n a) | NHead h -> "H" ^ string_of_int (int_of_n h)) w.w_queue) in
+  Printf.sprintf "known=%d stored=%d pending=%s heads=%s queue=%s" (int_of_n st.ix_known) (int_of_n st.ix_stored)
+    (match st.ix_pending with None -> "-" | Some (s, _) -> string_of_int (int_of_n s)) heads (if q = "" then "-" else q)
+let ix_apply (o : op) = ix_world := apply_op !ix_commit !ix_size !ix_confirms !ix_world o; ix_render ()
+
 let handle (toks : string list) : string =
   match toks with
+  (* ixinit rows|real SIZE CONFIRMS block... *)
+  | "ixinit" :: mode :: size :: confirms :: blocks ->
+    ix_commit := (if mode = "rows" then process_section_rows else process_section);
+    ix_size := n_of_string size; ix_confirms := n_of_string confirms;
+    ix_world := { w_chain = List.map parse_hblock blocks; w_queue = []; w_ix = ix_init }; ix_render ()
+  (* ixchain KEEP block...: the canonical chain becomes its first KEEP blocks followed by the given ones *)
+  | "ixchain" :: keep :: blocks ->
+    ix_apply (OpChain (take (int_of_string keep) !ix_world.w_chain @ List.map parse_hblock blocks))
+  | ["ixdeliver"] -> ix_apply OpDeliver
+  | ["ixbegin"] -> ix_apply OpBegin
+  | ["ixend"] -> ix_apply OpEnd
+  (* the vector the filters would be served for (bit, section): packed row, or none *)
+  | ["ixrow"; bit; s] ->
+    let w = !ix_world in
+    let sn = n_of_string s in
+    let h = canon_hash w.w_chain (N.sub (N.mul (N.add sn (n_of_int 1)) !ix_size) (n_of_int 1)) in
+    (match get_row w.w_ix (nat_of_int (int_of_string bit)) sn h with
+     | Some row -> vec_hex (row_bits !ix_size row)
+     | None -> "none")
   | ["keccak"; x] -> hex_of_bytes (keccak256 (bytes_of_hex x))
   | ["bloom9"; x] -> bloom_hex (bloom9 h (bytes_of_hex x))
   | ["idx"; x] ->
